@@ -101,10 +101,10 @@ func main() {
 	known(run, drv)
 
 	thorough := run.Thorough()
-	nA, nBrounds, nCrounds, nD := 60, 2, 2, 4
+	nA, nBrounds, nCrounds, nD := 150, 4, 3, 8
 	cfgsPer := 3
 	if thorough {
-		nA, nBrounds, nCrounds, nD = 500, 12, 10, 30
+		nA, nBrounds, nCrounds, nD = 1500, 30, 20, 80
 		cfgsPer = 5
 	}
 	allCfgs := []cfg{{1, "none", 0}, {4, "none", 0}, {4, "gosched", 150}, {2, "delay", 300}, {8, "gosched", 40}, {1, "gosched", 300},
@@ -284,8 +284,9 @@ func main() {
 		} else {
 			defer os.Remove(bin)
 			seen := map[*item]int{}
-			for _, j := range jobs {
-				if seen[j.it] >= 2 || (j.it.Stream == "A" && seen[j.it] >= 1) {
+			for k := len(jobs) - 1; k >= 0; k-- {
+				j := jobs[k]
+				if seen[j.it] >= 1 || (j.it.Stream == "A" && j.c.ID%3 != 0) {
 					continue
 				}
 				seen[j.it]++
@@ -293,6 +294,9 @@ func main() {
 				c.ID = id
 				id++
 				c.MS = 60000
+				if j.it.Class != "" {
+					c.MS = 8000
+				}
 				if c.Sched == "delay" {
 					c.Sched = "gosched"
 				}
@@ -397,12 +401,17 @@ func judge(run *common.Run, j *job, refOut func(*item) string) {
 	for _, r := range j.races {
 		if !r.Interp {
 			run.Hit("race:report-outside-interp")
+			if l, _ := run.Res.Extra["race_reports_outside_interp_samples"].([]string); len(l) < 3 {
+				run.Res.Extra["race_reports_outside_interp_samples"] = append(l, it.Name+": "+trunc(r.Text, 700))
+			}
 			continue
 		}
 		run.Hit("race:report-in-interp")
-		finding := ""
-		if it.Class == "select-multi" && r.Select {
-			finding = "select-multi"
+		// outside the domain the report is one more observation of the class's defect; for select-multi only
+		// when the racing accesses are those of _select
+		finding := it.Class
+		if it.Class == "select-multi" && !r.Select {
+			finding = ""
 		}
 		run.Disagree(common.Disagreement{Kind: "impl-vs-ref", Input: inputOf(it, j), Impl: "DATA RACE " + r.Top, Ref: "no data race in the interpreter's own state",
 			Finding: finding, Note: trunc(r.Text, 1800)})
@@ -523,16 +532,41 @@ func (c *child) kill() {
 	<-c.dead
 }
 
-// runJobs runs the jobs grouped by GOMAXPROCS, one child per group at a time, groups in parallel.
+// runJobs runs the jobs in child processes: one child per (GOMAXPROCS value, shard), a few children at a time.
 func runJobs(run *common.Run, bin string, jobs []*job, race bool) {
 	groups := map[int][]*job{}
 	for _, j := range jobs {
 		groups[j.P] = append(groups[j.P], j)
 	}
-	var wg sync.WaitGroup
-	sem := make(chan struct{}, 3)
-	var mu sync.Mutex
+	type shard struct {
+		P  int
+		js []*job
+	}
+	var shards []shard
+	per := 120
+	if race {
+		per = 40
+	}
 	for P, js := range groups {
+		for len(js) > 0 {
+			n := per
+			if n > len(js) {
+				n = len(js)
+			}
+			shards = append(shards, shard{P, js[:n]})
+			js = js[n:]
+		}
+	}
+	sort.Slice(shards, func(a, b int) bool {
+		if len(shards[a].js) != len(shards[b].js) {
+			return len(shards[a].js) > len(shards[b].js)
+		}
+		return shards[a].js[0].c.ID < shards[b].js[0].c.ID
+	})
+	var wg sync.WaitGroup
+	sem := make(chan struct{}, 4)
+	var mu sync.Mutex
+	for _, sh := range shards {
 		wg.Add(1)
 		go func(P int, js []*job) {
 			defer wg.Done()
@@ -580,6 +614,10 @@ func runJobs(run *common.Run, bin string, jobs []*job, race bool) {
 						j.died = "bad answer from the child: " + trunc(string(l), 200)
 					} else {
 						j.out = &o
+						if o.Timeout {
+							// goroutines of a dead-locked script stay behind: start afresh
+							flush()
+						}
 					}
 				case <-c.dead:
 					j.died = "the process died: " + fatalLine(c.stderr.String())
@@ -596,7 +634,7 @@ func runJobs(run *common.Run, bin string, jobs []*job, race bool) {
 			if race {
 				attributeRaces(js, stderrAll.String())
 			}
-		}(P, js)
+		}(sh.P, sh.js)
 	}
 	wg.Wait()
 }
@@ -678,20 +716,39 @@ func classifyRace(lines []string) raceReport {
 			}
 		}
 	}
-	// a race between two accesses made by the script's own data through reflect is not the interpreter's:
-	// require that the racing accesses themselves (first frame of each stack) are in package interp
-	first := 0
-	interpFirst := 0
+	// whose accesses are they: for each access stack take the first frame that is not in the standard library
+	// (reflect.Select reading `cases`, sync primitives, the runtime); the report concerns the interpreter when
+	// such a frame is in package interp and none is in the harness itself
+	r.Interp = false
 	ls := strings.Split(access, "\n")
+	inHarness := false
 	for i, l := range ls {
-		if strings.HasSuffix(strings.TrimSpace(l), ":") && i+1 < len(ls) && (strings.Contains(l, " by goroutine") || strings.Contains(l, " by main goroutine")) {
-			first++
-			if strings.HasPrefix(strings.TrimSpace(ls[i+1]), "github.com/traefik/yaegi/interp.") {
-				interpFirst++
+		if !(strings.HasSuffix(strings.TrimSpace(l), ":") && (strings.Contains(l, " by goroutine") || strings.Contains(l, " by main goroutine"))) {
+			continue
+		}
+		for k := i + 1; k < len(ls); k++ {
+			t := ls[k]
+			if strings.TrimSpace(t) == "" {
+				break
+			}
+			if !strings.HasPrefix(t, "  ") || strings.HasPrefix(t, "      ") {
+				continue // a file:line line
+			}
+			fn := strings.TrimSpace(t)
+			if strings.HasPrefix(fn, "github.com/traefik/yaegi/interp.") {
+				r.Interp = true
+				break
+			}
+			if strings.HasPrefix(fn, "main.") || strings.HasPrefix(fn, "verif/") {
+				inHarness = true
+				break
+			}
+			if strings.Contains(strings.SplitN(fn, "(", 2)[0], "/") && !strings.HasPrefix(fn, "internal/") && !strings.HasPrefix(fn, "sync/") {
+				break // some other module
 			}
 		}
 	}
-	if first > 0 && interpFirst == 0 {
+	if inHarness {
 		r.Interp = false
 	}
 	r.Top = strings.Join(tops, " <- ")
